@@ -216,9 +216,18 @@ func (p *p03) mkInterHub() p03Tx {
 	if len(proof) == 0 {
 		valid = false
 	}
-	tx := harness.IBTPTx(pier, p.world.Nonce(pier.Addr), p.world.Stamp(), ib, proof, nil)
+	// the proof bytes must also hash to the value committed inside the IBTP, whoever signed them
+	var ph []byte
+	hk := "hash-ok"
+	switch r.Intn(6) {
+	case 0:
+		ph, hk, valid = []byte("0123456789abcdef0123456789abcdef"), "hash-mismatch", false
+	case 1:
+		ph, hk, valid = []byte{}, "hash-empty", false
+	}
+	tx := harness.IBTPTx(pier, p.world.Nonce(pier.Addr), p.world.Stamp(), ib, proof, ph)
 	mi := model.IxIBTP{From: from, To: to, Index: idx, Kind: model.KReq, DstUsable: true, ProofOK: valid}
-	return p03Tx{tx: tx, isIBTP: true, valid: valid, mi: mi, desc: fmt.Sprintf("interhub req #%d signers=%v distinct-valid=%d", idx, names, len(distinct))}
+	return p03Tx{tx: tx, isIBTP: true, valid: valid, mi: mi, desc: fmt.Sprintf("interhub req #%d signers=%v distinct-valid=%d %s", idx, names, len(distinct), hk)}
 }
 
 // mkAlt: an external account tries to make the interchain contract process a victim's IBTP
